@@ -24,6 +24,14 @@ type Ledger struct {
 	Max     sdkmath.Int
 
 	Assoc [](int) // per staker: -1 none, else operator index
+
+	sumW, sumT, sumP sdkmath.Int
+}
+
+// AssumeStakingTotalCovers: for an LST the published staking total (deposits - withdrawals) is at
+// least everything still on the ledger (slashing only removes from the ledger).
+func (l *Ledger) AssumeStakingTotalCovers(total sdkmath.Int) {
+	verifrt.Assume(total.GTE(l.sumW.Add(l.sumT).Add(l.sumP)))
 }
 
 func nm(f string, a ...interface{}) string { return fmt.Sprintf(f, a...) }
@@ -51,7 +59,7 @@ func NewSymbolicLedger(e *Env, ns, no int, assetID string, maxBits int) *Ledger 
 	for i := 0; i < maxBits; i++ {
 		max = max.MulRaw(2)
 	}
-	l := &Ledger{E: e, NS: ns, NO: no, AssetID: assetID, Max: max}
+	l := &Ledger{E: e, NS: ns, NO: no, AssetID: assetID, Max: max, sumW: sdkmath.ZeroInt(), sumT: sdkmath.ZeroInt(), sumP: sdkmath.ZeroInt()}
 	ctx := e.Ctx
 	zeroDec := sdkmath.LegacyZeroDec()
 
@@ -83,7 +91,9 @@ func NewSymbolicLedger(e *Env, ns, no int, assetID string, maxBits int) *Ledger 
 			sh := zeroDec
 			if kind == 2 {
 				sh = l.shr(nm("share_s%d_o%d", s, o))
-				verifrt.Assume(sh.IsPositive())
+				// a delegation of >= 1 base unit mints >= 1 whole share (rate >= 1), and undelegation
+				// sweeps dust: a positive position is never below one whole share on an LST ledger
+				verifrt.Assume(sh.GTE(sdkmath.LegacyOneDec()))
 			}
 			w := l.amt(nm("wait_s%d_o%d", s, o))
 			e.PutDelegation(s, o, assetID, delegationtypes.DelegationAmounts{UndelegatableShare: sh, WaitUndelegationAmount: w})
@@ -106,6 +116,8 @@ func NewSymbolicLedger(e *Env, ns, no int, assetID string, maxBits int) *Ledger 
 		// and shares are zero exactly when the pool is empty
 		verifrt.Assume(sdkmath.LegacyNewDecFromInt(T).LTE(totalShare))
 		verifrt.Assume(T.IsZero() == totalShare.IsZero())
+		l.sumT = l.sumT.Add(T)
+		l.sumP = l.sumP.Add(opPending)
 		e.PutOperatorAsset(o, assetID, assetstypes.OperatorAssetInfo{
 			TotalAmount: T, PendingUndelegationAmount: opPending, TotalShare: totalShare, OperatorShare: opShare,
 		})
@@ -114,6 +126,8 @@ func NewSymbolicLedger(e *Env, ns, no int, assetID string, maxBits int) *Ledger 
 		if rows || verifrt.Bool(nm("staker_row_s%d", s)) {
 			w := l.amt(nm("withdrawable_s%d", s))
 			d := l.amt(nm("deposit_s%d", s))
+			verifrt.Assume(d.GTE(w.Add(pend[s])))
+			l.sumW = l.sumW.Add(w)
 			e.PutStakerAsset(s, assetID, assetstypes.StakerAssetInfo{
 				TotalDepositAmount: d, WithdrawableAmount: w, PendingUndelegationAmount: pend[s],
 			})
@@ -212,7 +226,8 @@ func (l *Ledger) Read() *Snap {
 	return sn
 }
 
-// Sigma = sum of withdrawable balances + pools + pending amounts (the conserved quantity of C01).
+// Sigma = sum of withdrawable balances + pools + pending figures (the conserved quantity of C01;
+// the pending figure of a record equals what it owes until it is slashed).
 func (sn *Snap) Sigma() sdkmath.Int {
 	t := sdkmath.ZeroInt()
 	for _, w := range sn.Withdrawable {
@@ -222,6 +237,18 @@ func (sn *Snap) Sigma() sdkmath.Int {
 		t = t.Add(p)
 	}
 	for _, p := range sn.PoolPending {
+		t = t.Add(p)
+	}
+	return t
+}
+
+// Liquid = withdrawable balances + pools (without pending).
+func (sn *Snap) Liquid() sdkmath.Int {
+	t := sdkmath.ZeroInt()
+	for _, w := range sn.Withdrawable {
+		t = t.Add(w)
+	}
+	for _, p := range sn.PoolAmount {
 		t = t.Add(p)
 	}
 	return t
@@ -246,8 +273,7 @@ func (l *Ledger) AssertInv(sn *Snap, assoc []int, tag string) {
 		verifrt.Assert(sn.PoolOpShare[o].Equal(self), tag+": self-share equals the sum over associated delegators")
 		verifrt.Assert(sn.PoolPending[o].Equal(pend), tag+": operator pending figure equals the sum over its delegators")
 		verifrt.Assert(!sn.PoolAmount[o].IsNegative() && !sn.PoolPending[o].IsNegative(), tag+": pool figures non-negative")
-		verifrt.Assert(sn.PoolAmount[o].IsZero() == sn.PoolShare[o].IsZero() || verifrt.Known("F7"), tag+": shares are zero exactly when the pool amount is zero")
-		verifrt.Assert(sdkmath.LegacyNewDecFromInt(sn.PoolAmount[o]).LTE(sn.PoolShare[o]), tag+": pool amount never exceeds the share total")
+		verifrt.Assert(sn.PoolAmount[o].IsZero() == sn.PoolShare[o].IsZero(), tag+": shares are zero exactly when the pool amount is zero")
 	}
 	for s := 0; s < l.NS; s++ {
 		pend := sdkmath.ZeroInt()
@@ -297,7 +323,7 @@ func NewPlainLedger(e *Env, ns, no int, assetID string, maxBits int) *Ledger {
 	for i := 0; i < maxBits; i++ {
 		max = max.MulRaw(2)
 	}
-	l := &Ledger{E: e, NS: ns, NO: no, AssetID: assetID, Max: max}
+	l := &Ledger{E: e, NS: ns, NO: no, AssetID: assetID, Max: max, sumW: sdkmath.ZeroInt(), sumT: sdkmath.ZeroInt(), sumP: sdkmath.ZeroInt()}
 	for s := 0; s < ns; s++ {
 		l.Assoc = append(l.Assoc, -1)
 		w := l.amt(nm("withdrawable_s%d", s))
